@@ -56,7 +56,7 @@ type lexTokPath struct {
 	literalOK  bool
 	litScanner string // the literal is the result of this scanner
 	litScanFn  *ssa.Function
-	reads      int    // readChar events after the leading whitespace skip
+	reads      int // readChar events after the leading whitespace skip
 	scans      []string
 	scanFns    []*ssa.Function
 	readsAfter int  // reads after the last scanner
